@@ -174,8 +174,19 @@ ssize_t readv(int fd, const struct iovec *iov, int iovcnt)
 }
 
 size_t __real_fread(void *ptr, size_t size, size_t n, FILE *f);
+static long freadshort;
 size_t __wrap_fread(void *ptr, size_t size, size_t n, FILE *f)
 {
+    if (freadshort > 0 && n > 0 && size > 0) {
+        /* a short count without error or end of file (as when a signal interrupts the read underneath): the
+         * caller may give up or go on reading, but must not take what it has for the whole file */
+        size_t total = size * n, want = (size_t)freadshort < total ? (size_t)freadshort : total, got;
+        freadshort = 0;
+        n_freadfault_fired++;
+        got = __real_fread(ptr, 1, want, f);
+        sim_note("FREADSHORT fired %zu of %zu bytes", got, total);
+        return size ? got / size : 0;
+    }
     if (freadfault_count > 0) {
         freadfault_count--;
         n_freadfault_fired++;
@@ -613,6 +624,8 @@ int event_base_dispatch(struct event_base *b)
         } else if (!strncmp(hdr, "RDFAULT ", 8)) {
             rdfault_errno = !strncmp(hdr + 8, "EINTR", 5) ? EINTR : EAGAIN;
             rdfault_count = atoi(hdr + 14) > 0 ? atoi(hdr + 14) : 1;
+        } else if (!strncmp(hdr, "FREADSHORT ", 11)) {
+            freadshort = atol(hdr + 11);
         } else if (!strncmp(hdr, "FREADFAULT", 10)) {
             freadfault_count = 1;
         } else if (!strncmp(hdr, "EOF", 3)) {
@@ -692,6 +705,18 @@ int main(int argc, char **argv)
     out_fd = memfd_create("simhost-stdout", 0);
     dup2(out_fd, 1);
     atexit(done);
+    if (getenv("VERIF_PREQUEUE")) {
+        /* the server wrote these bytes while the daemon was still starting: they are readable on the channel
+         * when the event loop makes its very first pass */
+        FILE *f = fopen(getenv("VERIF_PREQUEUE"), "rb");
+        if (f) {
+            static char pq[1 << 19];
+            size_t n = fread(pq, 1, sizeof pq, f);
+            fclose(f);
+            if (n && write(in_wr, pq, n) != (ssize_t)n)
+                _exit(98);
+        }
+    }
 
     if (getenv("VERIF_PREREG")) {
         /* settings "registered before loading" (C15) */
